@@ -267,6 +267,10 @@ pub fn run_check(ctx: &Ctx) -> i32 {
                 if idx.len() == max && max > 3 && (ci > 1 || ei > 0) {
                     continue;
                 }
+                // the four additional contexts get the two deepest levels in UTF-8 only
+                if ci >= 4 && idx.len() + 1 >= max && max > 3 && ei > 0 {
+                    continue;
+                }
                 // an HTML breakout tag (br) inside svg/math leaves foreign content: outside the
                 // statement's "foreign-content context"
                 if CONTEXTS[ci].2 != Ns::Html && crate::docgen::BREAKOUT.contains(&NAMES[ti].to_ascii_lowercase().as_str()) {
